@@ -607,9 +607,11 @@ Proof. intros a b Em Es H s Hs Hn. rewrite Em. apply H; [rewrite <- Es; exact Hs
 
 (* the property of the select machine assumed of a slice (C05 proves it of the VM): it parks only
    after having scanned the whole mailbox with every receive source, and a slice that ends with the
-   Await action has not started evaluating its sources *)
+   Await action has not started evaluating its sources.  A select whose awaited targets have not all
+   been reported yet parks again WITHOUT evaluating its sources when it is woken (since the repair of
+   F72, executor.rs "Phase 3"): its start time is still unset, and clause 1 says nothing about it. *)
 Definition park_honest (d : did) (mail' : list msg) : Prop :=
-  (d_park d = true -> forall s, d_sel d = Some s -> Forall (fun c => c = length mail') (sl_cursors s)) /\
+  (d_park d = true -> forall s, d_sel d = Some s -> sl_start s <> None -> Forall (fun c => c = length mail') (sl_cursors s)) /\
   (forall ts, d_act d = Some (AAwait ts) -> forall s, d_sel d = Some s -> sl_start s = None).
 
 Definition honest_step (s : sys) (a : sched_action) : Prop :=
@@ -640,7 +642,7 @@ Proof.
     eapply (parked_par scanned None); [apply ext_scanned|eapply par_handle_cmds; [exact HI|exact E1]|exact P|intros q pr E; discriminate].
   - intros p pr mail' pr' Hsi Hreason Em Es. rewrite Hsi in Hh. destruct Hh as (H1&H2).
     intros s Hs Hn. rewrite Es in Hs. destruct Hreason as [Hp|(ts&Ha)].
-    + rewrite Em. apply (H1 Hp s Hs).
+    + rewrite Em. apply (H1 Hp s Hs Hn).
     + exfalso. apply Hn. apply (H2 ts Ha s Hs).
 Qed.
 
